@@ -53,6 +53,10 @@ def inner_string():
 OTHER_INNERS = {
     "vec": Inner("Vec<i32>", "Vec<i32>", "other", carrier="list",
                  caps=frozenset(ALL_CAPS - {"Copy", "Display", "FromStr"})),
+    "opt": Inner("Option<i32>", "Option<i32>", "other", carrier="opt",
+                 caps=frozenset(ALL_CAPS - {"Display", "FromStr"})),
+    "arr": Inner("[i32; 3]", "[i32; 3]", "other", carrier="arr3",
+                 caps=frozenset(ALL_CAPS - {"Display", "FromStr"})),
     "fvec": Inner("Vec<f64>", "Vec<f64>", "other", carrier="flist",
                   caps=frozenset(ALL_CAPS - {"Copy", "Display", "FromStr", "Eq", "Ord", "Hash"})),
     "point": Inner("nvrt::Point", "nvrt::Point", "other", carrier="point",
